@@ -1,6 +1,6 @@
 """C07 - request body streams deliver exactly the declared body: no loss, no over-read."""
 PROP = 'C07'
-LEAN_MODULES = ['FalconModel.WsgiStreamProofs', 'FalconModel.AsgiStreamProofs']
+LEAN_MODULES = ['FalconModel.WsgiStreamProofs', 'FalconModel.AsgiStreamProofs', 'FalconModel.AsgiHistory']
 DRIVERS = ['w7fdriver', 'asfdriver']
 THEOREMS = [
     # WSGI BoundedStream (falcon/stream.py), model Ws7F = the code after the F02/F03 repairs
@@ -8,10 +8,12 @@ THEOREMS = [
     'Ws7F.history_refines_cursor', 'Ws7F.never_overreads', 'Ws7F.exhaust_step',
     # ASGI BoundedStream (falcon/asgi/stream.py), model AsF = the code after the F04/F05/F19 repairs
     'AsF.readall_refines', 'AsF.read_sized_refines', 'AsF.exhaust_refines', 'AsF.iterate_refines',
+    'AsF.runOp_step', 'AsF.history_refines', 'AsF.history_prefix_of_declared', 'AsF.history_whole_at_eof', 'AsF.good_init',
     # the pre-repair models violate the same statements (regression witnesses, by `decide`)
     'Ws7.f02_witness', 'Ws7.f03_witness', 'f04_witness', 'f05_witness', 'f19_witness',
 ]
 STATEMENTS = {
+    'AsF.history_refines': 'ASGI: from a fresh stream whose events contain the end of the body, after ANY sequence of read(n) (any integer n) / read() / readall() / exhaust() / async-for abandoned after any number of chunks: consumed ++ still-to-come = declared body, tell() advanced by exactly |consumed|, the bytes handed to the app in call order are a prefix of consumed (all of it without exhaust), and no operation blocked on receive()',
     'Ws7F.history_refines_cursor': 'for every history of read/readline/readlines/next with any size arguments, every body, declared length and short-read oracle: the concatenated outputs are the next bytes of raw[:Content-Length], exactly the rest remains, the raw stream advanced by exactly that much, budget stays >= 0',
     'Ws7F.never_overreads': 'after any history, total returned <= Content-Length and the raw stream position = bytes returned (nothing beyond the declared length was consumed)',
     'Ws7F.exhaust_step': 'exhaust(chunk) discards a prefix of the declared body and leaves nothing',
@@ -26,7 +28,7 @@ TRUSTED = [
 ]
 ASSUMPTIONS = [
     'sizes passed to read/readline/readlines are None or ints; Content-Length >= 0',
-    'close()/closed-stream errors and the second-iteration guard of the ASGI stream are covered by the correspondence and oracle only (guard tests, no theorem)',
+    'close()/closed-stream errors of the ASGI stream are covered by the correspondence and oracle only (guard tests, no theorem); a second iteration while one is suspended is in the history theorem (it answers notAllowed and changes nothing)',
 ]
 RULE = ('random bodies over {a,b,c,\\n} (len 0..20) x Content-Length in {absent, exact, shorter, longer, 0} x short-read oracles / '
         'ASGI event shapes (missing body/more_body keys, empty and oversized chunks, disconnect anywhere) x histories of 1..7 operations; '
